@@ -4,7 +4,10 @@
 For each patch: copy /repo to a scratch directory outside /repo and /verif, apply the patch, run the repository's own tests
 (must still pass), run the quick check of the property named in the file name (mutants/<tag>-<Cxx>-<name>.patch or
 orig-<Cxx>-<name>.patch; seeded/<id>/meta.json) with VERIF_REPO=<scratch> (must exit 1 with a VIOLATION line), delete the copy.
-Does not touch evidence/ (checks run with VERIF_NO_EVIDENCE=1)."""
+Does not touch evidence/ (checks run with VERIF_NO_EVIDENCE=1).
+
+selftest.py --neutral [patch ...]  (default: every neutral/*/patch.diff): the patches are behaviour-preserving changes (refactorings, rewrites,
+choices the properties leave open); the repository tests must pass and ALL twenty quick checks must exit 0 without a VIOLATION line."""
 import glob
 import json
 import os
@@ -20,11 +23,15 @@ PY = '/venv/bin/python'
 
 
 FORCE = None       # --check Cxx: run this property's check against every given patch (cross-property catches)
+NEUTRAL = False    # --neutral: the patches are behaviour-preserving changes (neutral/*/patch.diff): ALL twenty quick checks must exit 0 on them
+ALL = ['C%02d' % i for i in range(1, 21)]
 
 
 def props_of(path):
     if FORCE:
         return [FORCE]
+    if NEUTRAL:
+        return ALL
     if path.endswith('patch.diff'):
         meta = json.load(open(os.path.join(os.path.dirname(path), 'meta.json')))
         p = meta.get('checks') or meta['property']
@@ -54,6 +61,9 @@ def one(path, tier='quick', keep_tests=True):
             c = subprocess.run([PY, os.path.join(HERE, 'run.py'), pid, '--tier', tier], cwd=HERE, env=env2, capture_output=True, text=True)
             viol = [l for l in c.stdout.splitlines() if l.startswith('VIOLATION')]
             res.append((pid, c.returncode, len(viol), (viol[0][:160] if viol else c.stdout[-200:])))
+        if NEUTRAL:
+            alarms = [r_ for r_ in res if r_[1] != 0 or r_[2]]
+            return path, ('QUIET' if not alarms else 'FALSE-ALARM') + ' ' + tests, alarms or [(p_, rc_, n_, '') for p_, rc_, n_, _ in res]
         caught = any(rc == 1 and n for _, rc, n, _ in res)
         return path, ('CAUGHT' if caught else 'MISSED') + ' ' + tests, res
     finally:
@@ -61,8 +71,9 @@ def one(path, tier='quick', keep_tests=True):
 
 
 def main():
-    global FORCE
+    global FORCE, NEUTRAL
     argv = sys.argv[1:]
+    NEUTRAL = '--neutral' in argv
     if '--check' in argv:
         i = argv.index('--check')
         FORCE = argv[i + 1]
@@ -70,6 +81,8 @@ def main():
     args = [a for a in argv if not a.startswith('--')]
     tier = 'thorough' if '--thorough' in sys.argv else 'quick'
     paths = args or sorted(glob.glob(os.path.join(HERE, 'mutants', '*.patch')) + glob.glob(os.path.join(HERE, 'seeded', '*', 'patch.diff')))
+    if NEUTRAL:
+        paths = args or sorted(glob.glob(os.path.join(HERE, 'neutral', '*', 'patch.diff')))
     bad = 0
     results = {}
     with ThreadPoolExecutor(max_workers=int(os.environ.get('VERIF_JOBS', '8'))) as ex:
@@ -77,13 +90,19 @@ def main():
             print(f'{verdict:22s} {os.path.relpath(path, HERE)}')
             results[os.path.relpath(path, HERE)] = {'verdict': verdict, 'tier': tier,
                                                     'checks': [{'property': d[0], 'rc': d[1], 'violation_lines': d[2], 'first': d[3]} for d in detail] if isinstance(detail, list) else str(detail)}
-            if not verdict.startswith('CAUGHT tests-pass'):
+            if not verdict.startswith('QUIET tests-pass' if NEUTRAL else 'CAUGHT tests-pass'):
                 bad += 1
                 print('    ', detail)
             elif '-v' in sys.argv:
                 print('    ', detail)
     for d in glob.glob(os.path.join(HERE, '.work', 'noevidence-*')):
         shutil.rmtree(d, ignore_errors=True)
+    if NEUTRAL:
+        if not args:
+            with open(os.path.join(HERE, 'neutral_results.json'), 'w') as f:
+                json.dump(results, f, indent=1, sort_keys=True)
+        print(f'{len(paths) - bad}/{len(paths)} behaviour-preserving changes left all twenty quick checks quiet')
+        sys.exit(1 if bad else 0)
     if not args and not FORCE:
         # full run: keep the table that DESIGN.md section 9 is generated from (tools/mkcatchtable.py)
         with open(os.path.join(HERE, 'selftest_results.json'), 'w') as f:
